@@ -201,7 +201,22 @@ def cyc_rot_eq(a, b):
     return any(a[i:] + a[:i] == b for i in range(len(a)))
 
 
-def match_contours(pas, pbs, tol):
+def _signed_area(poly):
+    return sum(a[0] * b[1] - b[0] * a[1] for a, b in zip(poly, poly[1:])) / 2
+
+
+def _perimeter(poly):
+    return sum(math.hypot(b[0] - a[0], b[1] - a[1]) for a, b in zip(poly, poly[1:]))
+
+
+def same_orientation(pa, pb, tol):
+    """False only when both closed polylines enclose an area large enough to have an orientation (more than a tol-wide band around the outline) and the signs differ"""
+    A, B = _signed_area(pa), _signed_area(pb)
+    thr = 2 * tol * max(_perimeter(pa), _perimeter(pb)) + 1
+    return not (abs(A) > thr and abs(B) > thr and (A > 0) != (B > 0))
+
+
+def match_contours(pas, pbs, tol, oriented=False):
     """contour order is not part of the statement (fontTools' TrueType pen decomposes nested references of an overflowing
     composite after its direct ones): find a perfect matching of source and rendered contours within tol.
     Returns None or (index of an unmatched source contour, witness point)."""
@@ -215,6 +230,8 @@ def match_contours(pas, pbs, tol):
                 ok2, w2 = geom.within(pbs[j], pas[i], tol)
             else:
                 ok2, w2 = False, None
+            if ok1 and ok2 and oriented and (oriented is True or oriented[i]) and not same_orientation(pas[i], pbs[j], tol):
+                ok2, w2 = False, pbs[j][0]
             cache[(i, j)] = (ok1 and ok2, w1 or w2)
         return cache[(i, j)][0]
 
@@ -330,7 +347,24 @@ def run_case(case, ctx):
                 if flatten and glyf[c.glyphName].isComposite():
                     raise Violation("nested component reference after flattenComponents", glyph=name, base=c.glyphName)
         # (e) rendering
-        src = [R.cycle(pts) for pts, rev in R.resolve(gi, name)]
+        # winding: in a glyph without any mirroring transform in its component closure every contour keeps its direction, reversed once unless reverseDirection=False.
+        # (For mirrored references nothing is claimed here: kept as a TrueType component the rasteriser flips them, and fontTools' pen decomposes
+        # overflowing transforms without restoring the direction; the direction of decomposed mirrored contours is checked exactly in C01.)
+        def mirror_in_closure(n, seen=None):
+            seen = seen if seen is not None else set()
+            if n in seen or n not in gi:
+                return False
+            seen.add(n)
+            return any(R.det(c["t"]) < 0 or mirror_in_closure(c["base"], seen) for c in gi[n].get("components", []))
+
+        plain = not mirror_in_closure(name)  # a mirrored link anywhere on the way makes the final winding depend on which glyphs were decomposed
+        src, oriented = [], []
+        for pts, rev in R.resolve(gi, name):
+            cyc = R.cycle(pts)
+            if cyc is not None and plain and reverse:
+                cyc = R.reverse_cycle(cyc)
+            src.append(cyc)
+            oriented.append(plain)
         got = render_tt(glyf, name)
         if len(src) != len(got):
             raise Violation("number of rendered contours differs", glyph=name, got=len(got), expected=len(src))
@@ -338,8 +372,10 @@ def run_case(case, ctx):
         pas = [geom.flatten_cycle(sc, 0.05) for sc in src]
         pbs = [geom.flatten_cycle(gc, 0.05) for gc in got]
         ctx.count("contours-rendered", len(src))
-        bad = match_contours(pas, pbs, tol)
+        bad = match_contours(pas, pbs, tol, oriented=oriented)
         if bad is not None:
+            if match_contours(pas, pbs, tol) is None:
+                raise Violation("rendered contour has the opposite winding direction", glyph=name, contour=bad[0], reverseDirection=reverse)
             raise Violation("rendered contour deviates from the source beyond the conversion bound", glyph=name, contour=bad[0], tolerance=tol, worst_point=bad[1])
     # maxp
     exp = maxp_from_glyf(glyf, order)
